@@ -106,7 +106,24 @@ LOCALE_SETS = [
 
 def c01_cases(tier, seed):
     rng = random.Random(1000 + seed)
-    all_shapes = shapes(2, 3) if tier == "quick" else shapes(3, 4)
+    all_shapes = shapes(2, 3)
+    if tier != "quick":
+        # deeper / longer shapes are drawn at random (their full enumeration is astronomically large)
+        def rand_shape(depth, maxlen):
+            n = rng.randrange(1, maxlen + 1)
+            out = []
+            for _ in range(n):
+                k = rng.randrange(3 if depth > 0 else 2)
+                if k == 0 and out and out[-1] == "T":
+                    k = 1
+                if k == 0:
+                    out.append("T")
+                elif k == 1:
+                    out.append("V")
+                else:
+                    out.append(("C", rand_shape(depth - 1, 3)))
+            return tuple(out)
+        all_shapes = all_shapes + [rand_shape(3, 4) for _ in range(1500)]
     deep = [
         ("C", (("C", (("C", ("T",)),)),)),                       # depth 3
         ("C", ("T", ("C", ("V",)), "T")),
@@ -199,9 +216,9 @@ def c01_cases(tier, seed):
         cases.append(Case(Project(default, locales, files, style=STYLES[j]), "c01_whitespace/%d" % j, roles={"*": "whitespace_only_pieces"}))
     # numbers / bools reaching a run of literal text through a foreign key or a literal argument, in first position
     files = {l: {
-        "n": NUM(5), "neg": NUM(-3), "fl": NUM(2.5), "yes": ("bool", True), "tpl": S(V("n"), " items in ", V("where")),
-        "a": S(FK("n"), " apples " + l), "b": S(FK("neg"), FK("fl"), FK("yes"), " end"), "c": S(FK("tpl", {"n": NUM(3), "where": S("box")})),
-        "d": S(FK("tpl", {"n": ("bool", False), "where": NUM(7)}), "!"), "e": S("I have ", FK("n"), " apples"), "f": S(FK("yes")),
+        "n": NUM(5), "neg": NUM(-3), "fl": NUM(2.5), "yes": ("bool", True), "tpl": S(V("n"), " items in ", V("place")),
+        "a": S(FK("n"), " apples " + l), "b": S(FK("neg"), FK("fl"), FK("yes"), " end"), "c": S(FK("tpl", {"n": NUM(3), "place": S("box")})),
+        "d": S(FK("tpl", {"n": ("bool", False), "place": NUM(7)}), "!"), "e": S("I have ", FK("n"), " apples"), "f": S(FK("yes")),
     } for l in ("en", "fr")}
     cases.append(Case(Project("en", ["en", "fr"], files), "c01_fk_literals/0", roles={"*": "literal_joined_into_text"}))
     # > 26 pieces in one value (tuple chunking: 27, 28, 53, 60 pieces) and > 16 locales (nested EitherOf)
@@ -583,6 +600,67 @@ def c06_cases(tier, seed):
         nsf["home"][l]["c"] = S(FK("common:t_plural", {"count": NUM(1)}))
         nsf["common"][l]["back"] = S(FK("home:b"))
     cases.append(Case(Project("en", ["en", "fr"], nsf, namespaces=["common", "home"]), "c06_namespaces/0", roles={"*": "cross_namespace"}))
+    # ---- random acyclic reference graphs (depth <= 3), random argument sets, random declaration order
+    ngraphs = 6 if tier == "quick" else 120
+    tvars = {"t_lit": [], "t_num": [], "t_float": [], "t_bool": [], "t_var": ["name", "other"], "t_comp": ["name"],
+             "t_range": ["count", "name"], "t_frange": ["count"], "t_plural": ["count", "name"], "grp.leaf": ["name"], "grp.deep.leaf": []}
+    counted = {"t_range": "int", "t_frange": "float", "t_plural": "plural"}
+    for gi in range(ngraphs):
+        locales = ["en", "fr"] if gi % 2 == 0 else ["en", "fr", "de"]
+        files = base(locales)
+        roles = {}
+        names = []
+        free = {}          # key -> variables still free in it (approximation used only to pick arguments)
+        kinds = {}
+        order = list(range(6))
+        letters = rng.sample("abcdefghijklmnopqrstuvwxyz", 6)
+        for i in order:
+            key = "%s_r%d" % (letters[i], i)
+            pool = list(tvars) + names
+            tgt = rng.choice(pool)
+            tv = list(tvars.get(tgt, free.get(tgt, [])))
+            args = {}
+            for v in tv:
+                r = rng.random()
+                if v == "count" and (tgt in counted or kinds.get(tgt) in counted.values()):
+                    ck = counted.get(tgt, kinds.get(tgt))
+                    if r < 0.35:
+                        args[v] = NUM({"int": rng.choice([0, 1, 3, 200]), "float": rng.choice([0.0, 0.5, 2.0]), "plural": rng.choice([0, 1, 2, 5, 21])}[ck])
+                    elif r < 0.7:
+                        args[v] = S(V("n%d" % i))
+                elif r < 0.3:
+                    args[v] = S("A%d" % i)
+                elif r < 0.5:
+                    args[v] = S("<", V("w%d" % i), ">")
+                elif r < 0.6:
+                    args[v] = NUM(rng.choice([7, -2, 1.5]))
+                elif r < 0.7 and names:
+                    args[v] = S(FK(rng.choice(names)))
+            parts = []
+            if rng.random() < 0.6:
+                parts.append("%s:" % key)
+            parts.append(FK(tgt, args))
+            if rng.random() < 0.5:
+                parts.append(" +")
+            if rng.random() < 0.25:
+                parts.append(FK(rng.choice(list(tvars))))
+            for l in locales:
+                files[l][key] = S(*parts)
+            names.append(key)
+            # variables left free: those of the target not given, renamed counts, variables inside string arguments
+            fv = [v for v in tv if v not in args]
+            for v, a in args.items():
+                if a[0] == "str":
+                    fv += [p[1] for p in a[1] if p[0] == "var"]
+            if "count" in args and args["count"][0] == "str":
+                kinds[key] = counted.get(tgt, kinds.get(tgt))
+                fv.append("n%d" % i)
+            elif "count" not in args and (tgt in counted or kinds.get(tgt)):
+                kinds[key] = counted.get(tgt, kinds.get(tgt))
+            free[key] = sorted(set(fv))
+            roles[(None, (key,))] = "random_graph"
+        inherits = {"de": "fr"} if len(locales) == 3 and gi % 4 == 1 else None
+        cases.append(Case(Project("en", locales, files, inherits=inherits), "c06_random/%d" % gi, roles=roles, expect="any" if False else "ok"))
     # ---- rejected: unresolved, subkey group, cycles
     def bad(name, extra, role):
         files = {"en": dict(c06_targets("en"))}
